@@ -745,6 +745,8 @@ theorem step_ext (p : P) (hg : StrInv p.gstrings) (op : Op) : Ext p (step p op).
     · split
       · split <;> exact same _ rfl rfl rfl rfl
       · exact Ext.refl p
+  | removeMapping a b => simp only [step]; split <;> exact same _ rfl rfl rfl rfl
+  | clearMappings a => simp only [step]; split <;> exact same _ rfl rfl rfl rfl
   | string s =>
     simp only [step]
     exact Ext.globals rfl (p.gstrings.indexFor_prefix s) (List.prefix_refl _) (List.prefix_refl _) (CatsExt.refl _)
